@@ -195,6 +195,11 @@ func c11Run(c *core.Case, o *core.Outcome) {
 				o.Violate("gauss-rejected:"+desc, "valid gaussian settings rejected: %s: %v", desc, err)
 				return
 			}
+			if nw > 0 && r.IntN(2) == 0 {
+				// another weighted profile built afterwards in the same process (a later stage of the plan, say): this one keeps its own weights
+				_, _ = gaussian.CalculateGaussianRate(1000, 0, R, f, peak, sigma, strings.Repeat("7,", nw-1)+"9", "none")
+				desc += " (another profile with other weights built after it)"
+			}
 			if rates.IterationDuration != f {
 				o.Violate("gauss-tick:"+desc, "tick interval %v, want %v (%s)", rates.IterationDuration, f, desc)
 				return
